@@ -38,6 +38,8 @@ type scen struct {
 	calls     map[string]*pendingCall
 	dirty     bool
 	chmodT    map[string]bool
+	stretch    bool // inside a stretch: file system operations are collected, not logged one by one
+	stretchOps []J
 	ws        map[string]*struct{} // unused (shape compatibility with the shared helpers)
 }
 
@@ -229,6 +231,39 @@ func (s *scen) exec(st *Step) {
 		s.stepDrain(st)
 	case "obs":
 		s.stepObs(st)
+	case "stretch":
+		// A stretch of operations and API calls made while the reader is held back.  The file system operations are
+		// logged as ONE atomic burst when the stretch ends (API calls are logged where they happen): what matters for
+		// the reader is what each knote that still exists has accumulated and what the directories look like then.
+		if st.On {
+			sim.SimHold()
+			s.stretch = true
+			s.stretchOps = nil
+		} else {
+			s.stretch = false
+			if len(s.stretchOps) > 0 {
+				live := map[int]bool{}
+				for _, f := range sim.SimOpenFds() {
+					live[f.Ser] = true
+				}
+				ops := []J{}
+				for _, o := range s.stretchOps {
+					kept := []note{}
+					for _, n := range o["notes"].([]note) {
+						if live[n.Serial] {
+							kept = append(kept, n)
+						}
+					}
+					o["notes"] = kept
+					ops = append(ops, o)
+				}
+				s.emit(J{"k": "fs", "op": "rep", "p": []string{}, "to": []string{}, "ret": "ok", "kind": "", "notes": []note{}, "ops": ops, "unordered": false,
+					"atomic": true, "final": s.finalListing()})
+				s.stretchOps = nil
+			}
+			sim.SimRelease()
+		}
+		s.emit(J{"k": "hold", "on": st.On})
 	case "hold": // the reader is not woken up until the hold is released (operations pile up: a forced schedule)
 		if st.On {
 			sim.SimHold()
@@ -285,8 +320,9 @@ func (s *scen) stepNew(st *Step) {
 }
 
 type note struct {
-	Path []string `json:"path"`
-	Note uint32   `json:"note"`
+	Path   []string `json:"path"`
+	Note   uint32   `json:"note"`
+	Serial int      `json:"-"` // which open the knote hangs on (a stretch keeps only notes whose open is still there at its end)
 }
 
 // raise notes on the vnode v and report which watch descriptors (by the path they were opened with) were hit
@@ -299,7 +335,7 @@ func (s *scen) raise(v sim.SimVnode, ok bool, n uint32, acc *[]note) {
 		paths[f.Fd] = f.Path
 	}
 	for _, a := range sim.SimRaise(v, n) {
-		*acc = append(*acc, note{Path: s.tokPath(paths[a.Fd]), Note: a.Note})
+		*acc = append(*acc, note{Path: s.tokPath(paths[a.Fd]), Note: a.Note, Serial: a.Serial})
 	}
 }
 
@@ -468,6 +504,10 @@ func (s *scen) stepFs(st *Step) {
 		return
 	}
 	ret, kind, notes := s.doFs(st)
+	if s.stretch {
+		s.stretchOps = append(s.stretchOps, J{"op": st.Op, "p": orEmpty(st.P), "to": orEmpty(st.To), "ret": ret, "kind": kind, "notes": notes})
+		return
+	}
 	s.emit(J{"k": "fs", "op": st.Op, "p": orEmpty(st.P), "to": orEmpty(st.To), "ret": ret, "kind": kind, "notes": notes, "ops": []J{}, "unordered": false})
 }
 
@@ -479,20 +519,7 @@ func (s *scen) stepRep(st *Step) {
 		// at that moment (an observation of the environment) goes into the trace line
 		sim.SimHold()
 		defer func() {
-			final := []J{}
-			filepath.WalkDir(s.root, func(p string, d os.DirEntry, err error) error {
-				if err != nil || !d.IsDir() {
-					return nil
-				}
-				names := []J{}
-				if es, e := os.ReadDir(p); e == nil {
-					for _, x := range es {
-						names = append(names, J{"n": s.names.tok(x.Name()), "kind": kindOf(filepath.Join(p, x.Name()), false)})
-					}
-				}
-				final = append(final, J{"dir": s.tokPath(p), "names": names}) // ["/", "d1"]: the real place, as in user[u].real
-				return nil
-			})
+			final := s.finalListing()
 			s.emit(J{"k": "fs", "op": "rep", "p": []string{}, "to": []string{}, "ret": "ok", "kind": "", "notes": []note{}, "ops": ops, "unordered": false, "atomic": true, "final": final})
 			sim.SimRelease()
 		}()
@@ -510,6 +537,25 @@ func (s *scen) stepRep(st *Step) {
 		return
 	}
 	s.emit(J{"k": "fs", "op": "rep", "p": []string{}, "to": []string{}, "ret": "ok", "kind": "", "notes": []note{}, "ops": ops, "unordered": false, "atomic": false, "final": []J{}})
+}
+
+// finalListing: the content of every directory of the scenario tree (an observation of the environment)
+func (s *scen) finalListing() []J {
+	final := []J{}
+	filepath.WalkDir(s.root, func(p string, d os.DirEntry, err error) error {
+		if err != nil || !d.IsDir() {
+			return nil
+		}
+		names := []J{}
+		if es, e := os.ReadDir(p); e == nil {
+			for _, x := range es {
+				names = append(names, J{"n": s.names.tok(x.Name()), "kind": kindOf(filepath.Join(p, x.Name()), false)})
+			}
+		}
+		final = append(final, J{"dir": s.tokPath(p), "names": names}) // ["/", "d1"]: the real place, as in user[u].real
+		return nil
+	})
+	return final
 }
 
 func subst(p []string, i int) []string {
